@@ -157,9 +157,9 @@ def descend (cur : AMap Node) : List String → Option (AMap Node)
     | _ => none
 
 theorem lookup_loop_eq : ∀ (segs : List String) (cur : AMap Node),
-    FuncsDom.containerLookup_loop1 segs (some cur) =
+    FuncsDom.containerLookup_loop1 segs cur =
       .ok (match descend cur segs with
-           | some c => .next (some c)
+           | some c => .next c
            | none => .ret none) := by
   intro segs
   induction segs with
@@ -216,6 +216,6 @@ theorem containerLookup_generated_eq_model (c : AMap Node) (path : String) :
     simp only [hp, beq_iff_eq, if_false, hpc, hlen, hsl, hix, Go.Res.ok_bind, lookup_loop_eq, lookupSegs_concat]
     cases hd : descend c init with
     | none => simp
-    | some d => simp [GoDom.nonNil, Go.deref, GoDom.child]
+    | some d => simp [GoDom.child]
 
 end Ytk.FuncsDomRead
